@@ -85,12 +85,11 @@ fn build(sel: &[usize], n: usize, s: &mut String, v: &mut [char; 3]) {
     }
 }
 
-/// kernels on every string of exactly N characters over the alphabet x every cursor in [0, N] (both enumerated
-/// concretely: a symbolic cursor turns `char_indices().skip(cursor)` / `chars().nth(cursor)` into intractable
-/// loops -- measured) x both word modes x every inserted character (symbolic): the result is a *character*
-/// index in [0, #chars] and equals the reference motion; count_chars_bytes agrees with the UTF-8 layout;
-/// insert/remove at a character index produce the reference string.
-macro_rules! kernels_for {
+/// Word motions and index conversion on every string of exactly N characters over the alphabet x every cursor in
+/// [0, N] (both enumerated concretely: a symbolic cursor turns `char_indices().skip(cursor)` / `chars().nth(cursor)`
+/// into intractable loops -- measured) x both word modes (symbolic): the result is a *character* index in
+/// [0, #chars] and equals the reference motion; count_chars_bytes agrees with the UTF-8 layout.
+macro_rules! motion_for {
     ($name:ident, $len:expr) => {
         #[kani::proof]
         #[kani::unwind(8)]
@@ -98,9 +97,6 @@ macro_rules! kernels_for {
         #[kani::stub(char::is_alphanumeric, stub_is_alphanumeric)]
         fn $name() {
             let full_word: bool = kani::any();
-            let ins_sel: usize = kani::any();
-            kani::assume(ins_sel < 5);
-            let ch = match ins_sel { 0 => 'a', 1 => ' ', 2 => '+', 3 => '\u{e9}', _ => '\u{1F600}' };
             let n: usize = $len;
             let mut sel = [0usize; 3];
             let total: usize = if n == 0 { 1 } else if n == 1 { 5 } else if n == 2 { 25 } else { 125 };
@@ -109,19 +105,17 @@ macro_rules! kernels_for {
                 sel[0] = idx % 5;
                 sel[1] = (idx / 5) % 5;
                 sel[2] = (idx / 25) % 5;
+                let mut s = String::new();
+                let mut v = ['\0'; 3];
+                build(&sel, n, &mut s, &mut v);
+                let chars = &v[..n];
                 let mut cursor = 0;
                 while cursor <= n {
-                    let mut s = String::new();
-                    let mut v = ['\0'; 3];
-                    build(&sel, n, &mut s, &mut v);
-                    let chars = &v[..n];
-
                     let nx = find_word_next(&s, cursor, full_word);
                     assert!(nx <= n, "Ctrl+Right leaves the cursor beyond the end of the line (byte index used as character index)");
                     assert!(nx == spec_word_next(chars, cursor, full_word), "Ctrl+Right does not move to the start of the next word");
                     let bk = find_word_back(&s, cursor, full_word);
                     assert!(bk <= n && bk == spec_word_back(chars, cursor, full_word), "Ctrl+Left does not move to the start of the previous word");
-
                     let (bi, cc) = count_chars_bytes(&s, cursor);
                     let mut want_bi = 0;
                     let mut q = 0;
@@ -130,32 +124,70 @@ macro_rules! kernels_for {
                         q += 1;
                     }
                     assert!(cc == n && bi == want_bi, "character index -> byte index conversion wrong");
+                    cursor += 1;
+                }
+                core::mem::forget(s);
+                idx += 1;
+            }
+            kani::cover!(full_word);
+            kani::cover!(!full_word);
+        }
+    };
+}
+motion_for!(c20_motion_len0, 0usize);
+motion_for!(c20_motion_len1, 1usize);
+motion_for!(c20_motion_len2, 2usize);
+motion_for!(c20_motion_len3, 3usize);
 
-                    // insert at the cursor, then remove it again: text round-trips, the inserted character sits at `cursor`
+/// insert / remove at a character index: every string of N characters x every cursor (enumerated) x every
+/// inserted character (symbolic): the character lands at the cursor, removing it again restores the text.
+macro_rules! edit_for {
+    ($name:ident, $len:expr) => {
+        #[kani::proof]
+        #[kani::unwind(8)]
+        fn $name() {
+            let ins_sel: usize = kani::any();
+            kani::assume(ins_sel < 5);
+            let ch = match ins_sel { 0 => 'a', 1 => ' ', 2 => '+', 3 => '\u{e9}', _ => '\u{1F600}' };
+            let n: usize = $len;
+            let mut sel = [0usize; 3];
+            let total: usize = if n == 0 { 1 } else if n == 1 { 5 } else { 25 };
+            let mut idx = 0;
+            while idx < total {
+                sel[0] = idx % 5;
+                sel[1] = (idx / 5) % 5;
+                let mut cursor = 0;
+                while cursor <= n {
+                    let mut s = String::new();
+                    let mut v = ['\0'; 3];
+                    build(&sel, n, &mut s, &mut v);
+                    let chars = &v[..n];
+                    let mut want_bi = 0;
+                    let mut total_len = 0;
+                    let mut q = 0;
+                    while q < n {
+                        if q < cursor { want_bi += chars[q].len_utf8(); }
+                        total_len += chars[q].len_utf8();
+                        q += 1;
+                    }
                     insert_char_index(&mut s, cursor, ch);
                     let (bi2, cc2) = count_chars_bytes(&s, cursor + 1);
-                    assert!(cc2 == n + 1 && bi2 == want_bi + ch.len_utf8(), "inserted character not at the cursor");
+                    assert!(cc2 == n + 1 && bi2 == want_bi + ch.len_utf8() && s.len() == total_len + ch.len_utf8(), "inserted character not at the cursor");
                     let removed = remove_char_index(&mut s, cursor);
-                    assert!(removed == ch && s.len() == {
-                        let mut t = 0;
-                        let mut q = 0;
-                        while q < n { t += chars[q].len_utf8(); q += 1; }
-                        t
-                    }, "remove at the cursor does not undo the insert");
+                    assert!(removed == ch && s.len() == total_len, "remove at the cursor does not undo the insert");
                     core::mem::forget(s);
                     cursor += 1;
                 }
                 idx += 1;
             }
-            kani::cover!(full_word && ins_sel == 4);
-            kani::cover!(!full_word && ins_sel == 1);
+            kani::cover!(ins_sel == 4);
+            kani::cover!(ins_sel == 0);
         }
     };
 }
-kernels_for!(c20_kernels_len0, 0usize);
-kernels_for!(c20_kernels_len1, 1usize);
-kernels_for!(c20_kernels_len2, 2usize);
-kernels_for!(c20_kernels_len3, 3usize);
+edit_for!(c20_edit_len0, 0usize);
+edit_for!(c20_edit_len1, 1usize);
+edit_for!(c20_edit_len2, 2usize);
 
 /// get_next_command: a submitted line of exactly N bytes over {a, ';', space} (N concrete per harness) is split
 /// at ';' into the same pieces, in order, then the head index resets
